@@ -184,6 +184,13 @@ func (m modelPkg) String() string {
 // It returns "" or a discrepancy class.
 func checkLookupFunc(model []modelPkg, b uint64, calls []call, ret error) (class, detail string) {
 	k, act := behaviour(b)
+	return checkLookupFuncKA(model, k, act, calls, ret)
+}
+
+// checkLookupFuncKA is checkLookupFunc for a callback that returns act (any
+// error value) at call k and nil otherwise. A wrapped StopLookup may come back
+// as itself or as nil: the contract says "nil if the error is StopLookup".
+func checkLookupFuncKA(model []modelPkg, k int, act error, calls []call, ret error) (class, detail string) {
 	// segments: names of package j that do not occur in earlier packages
 	seen := map[string]bool{}
 	type seg struct {
@@ -211,8 +218,8 @@ func checkLookupFunc(model []modelPkg, b uint64, calls []call, ret error) (class
 	var wantRet error
 	if act != nil && k <= total {
 		wantCalls = k
-		if act == errE {
-			wantRet = errE
+		if act != native.StopLookup {
+			wantRet = act
 		}
 	}
 	// walk the observed calls
@@ -220,7 +227,7 @@ func checkLookupFunc(model []modelPkg, b uint64, calls []call, ret error) (class
 	called := map[string]bool{}
 	for ci, c := range calls {
 		if ci >= wantCalls {
-			if act == errE && k <= total {
+			if act != nil && act != native.StopLookup && k <= total {
 				return "callback-called-after-it-returned-an-error", fmt.Sprintf("call %d (%s) happened after the callback returned E at call %d", ci+1, c.name, k)
 			}
 			if act == native.StopLookup && k <= total {
@@ -264,8 +271,12 @@ func checkLookupFunc(model []modelPkg, b uint64, calls []call, ret error) (class
 	}
 	if ret != wantRet {
 		switch {
-		case wantRet == errE && ret == nil:
-			return "returns-nil-instead-of-the-callback-error", "LookupFunc returned nil, want the error E returned by the callback"
+		case wantRet != nil && ret == nil && errors.Is(wantRet, native.StopLookup):
+			return "", "" // a wrapped StopLookup read as StopLookup
+		case wantRet != nil && ret == nil:
+			return "returns-nil-instead-of-the-callback-error", "LookupFunc returned nil, want the error returned by the callback"
+		case wantRet != nil && ret != nil && ret.Error() == wantRet.Error():
+			return "returns-another-error-value-than-the-callback's", fmt.Sprintf("LookupFunc returned a different error value with the same text %q (errors are compared with ==)", ret)
 		case wantRet == nil && ret == native.StopLookup:
 			return "returns-StopLookup-instead-of-nil", "LookupFunc returned StopLookup, want nil"
 		}
